@@ -618,3 +618,12 @@ Lemma preprocessors_process_independent :
   SH.shakespeare_is_process_independent = true /\ SO.stackoverflow_is_process_independent = true /\
   EM.emnist_is_process_independent = true.
 Proof. repeat split. Qed.
+
+(* argument plumbing, recognised on this run: every wrapper passes each of its parameters on to the like-named
+   parameter of the function it wraps *)
+Lemma argument_forwarding :
+  CF.cifar_batch_tff_forwards = true /\ CF.cifar_batch_forwards = true /\ CF.cifar_load_data_forwards = true /\
+  EM.emnist_load_data_forwards = true /\ SH.sh_load_data_forwards = true /\ SH.sh_load_data_binds_sequence_length = true /\
+  SO.so_load_data_forwards = true /\ SO.so_tokenizer_forwards_vocab_size = true /\ SO.so_tokenizer_forwards_buckets = true /\
+  SO.so_as_preprocess_batch_forwards = true /\ TK.tasks_forward_mode_and_cache_dir = true.
+Proof. repeat split. Qed.
